@@ -548,7 +548,9 @@ def gen_a(rng, tier):
                 th = rng.choice(outs)
                 p = rng.randrange(npool)
                 os = oracles(1, th)
-                pk = rng.choice(["pt", "pu"])
+                pk = rng.choice(["pt", "pu", "pm"])
+                if pk == "pm" and not m.builtin(p):
+                    pk = "pt"   # ABT_pool_push_threads needs the optional push_many, which the harness's user pools do not define
                 ok, _ = m.set(th, p, os[0], 1, site=pk)
                 if ok:
                     m.push(th)
